@@ -415,11 +415,32 @@ fn c09(ctx: &Ctx, rep: &mut Report) {
                 break;
             }
             rep.eval();
+            // every eighth state also carries the sticky bit on its directories and a set-id bit on its files in
+            // Memfs (as on disk below): a mode is carried over whole; the relation then starts from what is observed
+            let special_m = si % 8 == 6;
+            let observed_pre;
+            let state_m: &NTree = if special_m {
+                for (k, n) in state.nodes.iter() {
+                    let add = match n.kind {
+                        NKind::Dir if k != "/" => 0o1000,
+                        NKind::File(_) => if k.len() % 2 == 0 { 0o4000 } else { 0o2000 },
+                        _ => 0,
+                    };
+                    if add != 0 {
+                        let _ = ls.mem.chmod_b(k).and_then(|c| c.all((n.mode & 0o7777) | add).no_recurse().exec());
+                    }
+                }
+                rep.count("memfs_calls_on_states_with_sticky_and_set_id_bits", 1);
+                observed_pre = memfs_ntree(&ls.mem.verif_snapshot());
+                &observed_pre
+            } else {
+                state
+            };
             set_case(&format!("rel:{}({}):returns→stalls", op.name(), cls), &format!("{:?} {:?}", hist, op));
             let res = exec(&ls.mem, op);
             let post = memfs_ntree(&ls.mem.verif_snapshot());
-            rep.key_str(&format!("memfs|{}|{}|{}", op.name(), cls, res.class()));
-            let mut viol = relation(op, state, &post, &res, &sa, &da, true);
+            rep.key_str(&format!("memfs|{}|{}|{}{}", op.name(), cls, res.class(), if special_m { "|special-bits" } else { "" }));
+            let mut viol = relation(op, state_m, &post, &res, &sa, &da, true);
             // aliasing probe: change a copied/moved file through one name, the other must not follow
             if !res.is_err() && viol.is_empty() {
                 if let Some((f_src, f_dst)) = state.subtree(&sa).iter().find_map(|k| {
@@ -447,7 +468,7 @@ fn c09(ctx: &Ctx, rep: &mut Report) {
                         ("history", J::Arr(hist.iter().map(|o| J::s(o.describe())).collect())),
                         ("call", J::s(op.describe())),
                         ("result", J::s(res.short())),
-                        ("pre_state", state.to_json()),
+                        ("pre_state", state_m.to_json()),
                         ("post_state", post.to_json()),
                         ("detail", J::s(detail)),
                     ]),
@@ -1066,6 +1087,11 @@ fn c11_grammar<V: VirtualFileSystem>(v: &V, backend: &str, root: &str, ctx: &Ctx
             }
             // spread the start modes that a stride would always skip
             let start = (start + (ci as u32 * 7) % mode_stride as u32).min(511);
+            // every second start mode also carries setuid / setgid / sticky: a symbolic change leaves them alone
+            let start = start | [0u32, 0o1000, 0, 0o4000, 0, 0o2000, 0, 0o7000][(ci * 3 + start as usize / mode_stride.max(1)) % 8];
+            if start > 0o777 {
+                rep.count("symbolic_chmods_on_start_modes_with_special_bits", 1);
+            }
             for (kind, path, is_dir, is_file) in kinds.iter() {
                 let shape = format!("single:{}{}", &c[..1], c.chars().find(|x| "-+=".contains(*x)).unwrap());
                 check(c, start, kind, path, *is_dir, *is_file, rep, &shape);
@@ -1083,7 +1109,7 @@ fn c11_grammar<V: VirtualFileSystem>(v: &V, backend: &str, root: &str, ctx: &Ctx
             continue;
         }
         let expr = format!("{},{}", a, b);
-        let start = rng.below(512) as u32;
+        let start = rng.below(512) as u32 | *rng.pick(&[0u32, 0, 0, 0o1000, 0o2000, 0o4000]);
         for (kind, path, is_dir, is_file) in kinds.iter() {
             let shape = format!("double:{}{},{}{}", &a[..1], a.chars().find(|x| "-+=".contains(*x)).unwrap(), &b[..1], b.chars().find(|x| "-+=".contains(*x)).unwrap());
             check(&expr, start, kind, path, *is_dir, *is_file, rep, &shape);
